@@ -202,7 +202,9 @@ static void str_emit(const char *ev, const char *tag, const char *fam, long idx,
     put_codes("s", s, len);
     printf(",\"r\":[%u,%u,%u,%u]", r[0], r[1], r[2], r[3]);
     put_groups("a0", &ad[0]);
+    put_groups("a1", &ad[1]);
     put_groups("a2", &ad[2]);
+    put_groups("a3", &ad[3]);
     printf(",\"b2\":%u,\"b3\":%u", b[2] > 100000 ? 100000 : b[2], b[3] > 100000 ? 100000 : b[3]);
     printf(",\"sf\":%d", sf);
     put_groups("sa", sa);
@@ -451,6 +453,31 @@ int main(int argc, char **argv)
             }
             mask_case("maskr", i, -1, p, g, gm);
         }
+    } else if (!strcmp(mode, "maskv4") && argc == 4) {
+        /* pairs of addresses that carry the same (or nearly the same) IPv4 address in different embeddings
+         * (compatible ::x, mapped ::ffff:x, ffff one group early, 6to4, NAT64, none): code that treats such
+         * addresses specially must still compare leading bits only */
+        rng_state = strtoull(argv[2], NULL, 10) * 0x2545f4914f6cdd1dULL + 9091;
+        for (i = 0; i < atol(argv[3]); i++) {
+            unsigned int gm[8], x6 = rnd(4) ? rnd(65536) : 0, x7 = rnd(8) ? rnd(65536) : 0;
+            unsigned int *t, kk, ka = (i / 6) % 6, kb = i % 6;
+            for (kk = 0; kk < 2; kk++) {
+                unsigned int kind = kk ? kb : ka;
+                t = kk ? gm : g;
+                memset(t, 0, 8 * sizeof(*t));
+                t[6] = x6;
+                t[7] = (kk && rnd(6) == 0) ? x7 ^ (1u << rnd(16)) : x7;
+                switch (kind) {
+                case 0: break;
+                case 1: t[5] = 65535; break;
+                case 2: t[4] = 65535; break;
+                case 3: t[0] = 0x2002; t[1] = x6; t[2] = x7; t[6] = t[7] = 0; break;
+                case 4: t[0] = 0x64; t[1] = 0xff9b; break;
+                default: t[5] = 65534; break;
+                }
+            }
+            mask_case("maskr", i, -1, 0, g, gm);
+        }
     } else if (!strcmp(mode, "addr") && argc == 10) {      /* one explicit address (replays) */
         for (i = 0; i < 8; i++)
             g[i] = (unsigned)atol(argv[2 + i]);
@@ -467,7 +494,7 @@ int main(int argc, char **argv)
     } else if (!strcmp(mode, "lines")) {
         lines();
     } else {
-        fprintf(stderr, "usage: h_addr pat|v4|edge|rnd|mask|maskr|strs|lines|addr|mask1 ...\n");
+        fprintf(stderr, "usage: h_addr pat|v4|edge|rnd|mask|maskr|maskv4|strs|lines|addr|mask1 ...\n");
         return 2;
     }
     printf("{\"e\":\"end\",\"n\":%lu}\n", n_cases);
